@@ -163,9 +163,10 @@ class NaiveBayes(BayesianNetwork):
         """
         independencies = Independencies()
         for variable in [variables] if isinstance(variables, str) else variables:
-            if variable != self.dependent:
+            other_features = list(set(self.features) - {variable})
+            if variable != self.dependent and other_features:
                 independencies.add_assertions(
-                    [variable, list(set(self.features) - set(variable)), self.dependent]
+                    [variable, other_features, self.dependent]
                 )
         return independencies
 
